@@ -5,9 +5,10 @@
    capacity-accounting defect never shows up as a C11 alarm and vice versa. *)
 EXTENDS MasterView, TraceKit
 CONSTANT Prop      \* "C11" | "C12"
-tvars == <<avars, kitvars>>
+VARIABLE lastwr   \* the writable lists of the previous snapshot
+tvars == <<avars, lastwr, kitvars>>
 NoCfg == [asmin |-> FALSE, nodes |-> <<>>, vols |-> <<>>, ecs |-> <<>>]
-TraceInit == AInit(NoCfg) /\ KitInit
+TraceInit == AInit(NoCfg) /\ lastwr = {} /\ KitInit
 TraceReset ==
   /\ IsReset
   /\ cfg' = [asmin |-> Ev.min, nodes |-> Ev.nodes, vols |-> Ev.vols, ecs |-> Ev.vecs]
@@ -16,21 +17,34 @@ TraceReset ==
   /\ expEc' = [n \in {r.id : r \in Range(Ev.nodes)} |-> <<>>]
   /\ expMax' = [n \in {r.id : r \in Range(Ev.nodes)} |-> <<>>]
   /\ ghostEc' = [v \in {r.id : r \in Range(Ev.vecs)} |-> {}]
-  /\ fresh' = FALSE
-TraceSkip == SkipStep /\ UNCHANGED avars
-TFull == IsEvent("full") /\ Strict /\ Full(Ev.n, Ev.max, Ev.vols)
-TInc == IsEvent("inc") /\ Strict /\ Ev.n \in conn /\ Inc(Ev.n, Ev.newv, Ev.delv)
-TEcFull == IsEvent("ecfull") /\ Strict /\ Ev.n \in conn /\ EcFull(Ev.n, Ev.ecs)
-TEcInc == IsEvent("ecinc") /\ Strict /\ Ev.n \in conn /\ EcInc(Ev.n, Ev.newec, Ev.delec)
-TClose == IsEvent("close") /\ Strict /\ Close(Ev.n)
-TCollect == IsEvent("collect") /\ Strict /\ Collect
+  /\ fresh' = FALSE /\ zomb' = {} /\ lost' = {} /\ lastwr' = {}
+TraceSkip == SkipStep /\ UNCHANGED <<avars, lastwr>>
+Op(name) == IsEvent(name) /\ UNCHANGED lastwr
+TFull == Op("full") /\ Strict /\ (Full(Ev.n, Ev.max, Ev.vols) \/ LostMsg(Ev.n))
+TInc == Op("inc") /\ Strict /\ (Inc(Ev.n, Ev.newv, Ev.delv) \/ LostMsg(Ev.n))
+TEcFull == Op("ecfull") /\ Strict /\ (EcFull(Ev.n, Ev.ecs) \/ LostMsg(Ev.n))
+TEcInc == Op("ecinc") /\ Strict /\ (EcInc(Ev.n, Ev.newec, Ev.delec) \/ LostMsg(Ev.n))
+TClose == Op("close") /\ Strict /\ (Close(Ev.n) \/ LostClose(Ev.n))
+\* a new stream of a server whose previous stream the master still holds, and the master dropping the previous one.
+\* C11: the server stays registered (its stream is open); the code forgets it (named deviation).  C12 is silent
+\* about which servers are registered: either way the counters must add up.
+TReopen == Op("reopen") /\ Strict /\ Reopen(Ev.n, Ev.max, Ev.vols)
+TZClose == /\ Op("zclose")
+           /\ \/ Strict /\ ZCloseKeep(Ev.n)
+              \/ Prop = "C12" /\ Strict /\ ZCloseForget(Ev.n)
+              \/ Prop = "C11" /\ Deviate("C11-reconnect-race") /\ ZCloseForget(Ev.n)
+TCollect == Op("collect") /\ Strict /\ Collect
+\* A snapshot.  C11: the base predicates always; the two conjuncts with an open finding either hold strictly or in
+\* their weakened form, and then the finding's name goes into `used` (it must be enabled in KF).
 TSnap ==
   /\ IsEvent("snap") /\ UNCHANGED avars
   /\ LET s == Ev IN
-     \/ Prop = "C12" /\ Strict /\ C12OK(s)
-     \/ Prop = "C11" /\ Strict /\ C11OK(s)
-     \/ /\ Prop = "C11" /\ Deviate("C11-ec-lookup-after-disconnect")
-        /\ C11Base(s) /\ LookupEcStale(s) /\ ~LookupEcOK(s)
-TraceNext == TraceReset \/ TraceSkip \/ TFull \/ TInc \/ TEcFull \/ TEcInc \/ TClose \/ TCollect \/ TSnap
+     /\ lastwr' = Range(s.wr)
+     /\ \/ Prop = "C12" /\ Strict /\ C12OK(s)
+        \/ /\ Prop = "C11" /\ C11Base(s) /\ LookupEcStale(s) /\ RegBigStale(s, lastwr)
+           /\ LET need == (IF LookupEcOK(s) THEN {} ELSE {"C11-ec-lookup-after-disconnect"})
+                           \cup (IF RegBigOK(s) THEN {} ELSE {"C11-oversized-joins-writable"})
+              IN need \subseteq KF /\ used' = used \cup need
+TraceNext == TraceReset \/ TraceSkip \/ TFull \/ TInc \/ TEcFull \/ TEcInc \/ TClose \/ TReopen \/ TZClose \/ TCollect \/ TSnap
 TraceSpec == TraceInit /\ [][TraceNext]_tvars
 =============================================================================
